@@ -125,6 +125,20 @@ Rescaled(e, d) == [e EXCEPT !.tm = [i \in 1..NSeg(e) |-> RDiv(RMul(TimeOf(e, i),
 \* inputs of the EnvGen unit generator: gate, levelScale, levelBias, timeScale, doneAction, envelope array
 EnvGenInputs(e, ctl) == [i \in 1..5 |-> Fix(ctl[i])] \o FormatSeq(e)
 
+(* ------------------------------ multichannel envelopes --------------
+   Every entry of levels, times and curves may itself be a list: one value per channel (names, numbers, mixed).
+   The envelope array is multichannel-expanded (Env help, "Multichannel expansion"): there are as many channels
+   as the longest such list, channel c is the ordinary envelope made of the c-th value of every entry, shorter
+   lists wrap around, plain entries are the same for all channels.  A multichannel envelope m has every entry
+   as a sequence of channel values (a plain entry is a sequence of one).                                      *)
+MaxLen1(ss) == LET lens == {Len(ss[i]) : i \in 1..Len(ss)} IN CHOOSE x \in lens : \A y \in lens : y <= x
+NChan(m) == Max(MaxLen1(m.lv), Max(MaxLen1(m.tm), MaxLen1(m.cv)))
+Pick(entry, c) == entry[((c - 1) % Len(entry)) + 1]
+Chan(m, c) == MkEnv([i \in 1..Len(m.lv) |-> Pick(m.lv[i], c)], [i \in 1..Len(m.tm) |-> Pick(m.tm[i], c)],
+                    [i \in 1..Len(m.cv) |-> Pick(m.cv[i], c)], m.rel, m.loop, m.off)
+ValidMC(m) == \A c \in 1..NChan(m) : ValidCurves(Chan(m, c))
+FormatMC(m) == IF ValidMC(m) THEN R("ok", [c \in 1..NChan(m) |-> FormatSeq(Chan(m, c))]) ELSE R("exc", <<>>)
+
 (* ------------------------------ constructors -------------------------
    Documented breakpoints (Env help: *triangle *sine *perc *linen *step *cutoff *dadsr *adsr
    *asr *pairs *xyc).  cv is the curve argument as a sequence (a single curve = <<c>>).    *)
